@@ -66,6 +66,8 @@ def scenarios(ctx):
         if rng.random() < 0.15:
             w["first_at_zero"] = True                      # the first site on the first base of its contig
         if rng.random() < 0.2:
+            w["multi_before"] = [[ci_, si_] for ci_, ch_ in enumerate(w["chroms"]) for si_ in range(len(ch_["sites"])) if rng.random() < 0.4]
+        if rng.random() < 0.2:
             w["phase_vcf"] = True                          # a phased VCF (true haplotypes, blocks) as an additional phase input
         if ns == 1 and rng.random() < 0.15 and not any(d_.get("decoy") == "foreignrg" for d_ in w.get("decoys", [])):
             o["ignore_rg"] = True          # --ignore-read-groups: read groups absent or naming somebody else
